@@ -221,14 +221,14 @@ def scenarios(pid, tier, seed):
         ])
     if pid == "C08":
         return [
-            {"args": ["scen", "family=searches", "depths=1,2", "pools=1,4,16", "walkpos=%d" % (6 if q else 400), "game=%d" % (3 if q else 12), "maxpieces=%d" % (20 if q else 32), S], "shards": 16},
-            {"args": ["scen", "family=searches", "depths=3", "pools=1,4,16", "maxpieces=%d" % (6 if q else 16), "walkpos=%d" % (6 if q else 300), "game=%d" % (2 if q else 10), S], "shards": 16},
+            {"args": ["scen", "family=searches", "depths=1,2", "pools=1,4,16", "walkpos=%d" % (6 if q else 240), "game=%d" % (3 if q else 8), "maxpieces=%d" % (20 if q else 32), S], "shards": 16},
+            {"args": ["scen", "family=searches", "depths=3", "pools=1,4,16", "maxpieces=%d" % (6 if q else 14), "walkpos=%d" % (6 if q else 160), "game=%d" % (2 if q else 6), S], "shards": 16},
             # one context, the same placement searched at several half-move clocks (near the move-count draw)
-            {"args": ["scen", "family=searches", "depths=%s" % ("2" if q else "2,3"), "pools=1,4", "clocks=1", "sides=1", "maxpieces=%d" % (5 if q else 12), "walkpos=%d" % (4 if q else 200), S], "shards": 16},
+            {"args": ["scen", "family=searches", "depths=%s" % ("2" if q else "2,3"), "pools=1,4", "clocks=1", "sides=1", "maxpieces=%d" % (5 if q else 10), "walkpos=%d" % (4 if q else 80), S], "shards": 16},
             # depth 5: the first depth at which two root moves' subtrees share a position with two or more plies still to
             # search.  Decided by the harness against a plain minimax over the engine's own generator and leaf score
             # (the extracted model needs ~25 s per depth-5 position; it is the oracle of the thorough tier's sample below)
-            {"args": ["scen", "family=searches", "depths=5", "pools=1,4", "selfmm=1", "maxpieces=4", "walkpos=%d" % (400 if q else 4000), "game=%d" % (0 if q else 3), S], "shards": 16},
+            {"args": ["scen", "family=searches", "depths=5", "pools=1,4", "selfmm=1", "maxpieces=4", "walkpos=%d" % (400 if q else 3000), "game=%d" % (0 if q else 2), S], "shards": 16},
             # the score the real watch loop shows for every searched move
             {"args": ["scen", "family=watch", "games=%d" % (2 if q else 16), "limit=%d" % (16 if q else 60), S], "shards": 2},
             # depth 6 in mating nets (lone king v two heavy pieces): forced mates of different lengths inside the horizon
